@@ -268,6 +268,8 @@ func (t *tr2) expr(e ast.Expr) (string, error) {
 			return CoqString(constant.StringVal(tv.Value)), nil
 		}
 		return "", fmt.Errorf("%s: unsupported literal", t.p.Pos(e))
+	case *ast.IndexExpr:
+		return t.tableIndex(x)
 	case *ast.SelectorExpr:
 		if id, ok := x.X.(*ast.Ident); ok {
 			if v, ok := t.env[id.Name+"."+x.Sel.Name]; ok {
@@ -389,6 +391,113 @@ func (t *tr2) expr(e ast.Expr) (string, error) {
 		return "", fmt.Errorf("%s: unsupported call", t.p.Pos(e))
 	}
 	return "", fmt.Errorf("%s: unsupported expression %T", t.p.Pos(e), e)
+}
+
+// tableIndex translates  TABLE[i]  where TABLE is a package-level variable initialised with an
+// array or slice literal of constants (possibly keyed, `[...]T{k1: v1, ...}`): a chain of tests
+// on the index; an index outside [0, len) is a Go run-time panic.
+func (t *tr2) tableIndex(x *ast.IndexExpr) (string, error) {
+	id, ok := x.X.(*ast.Ident)
+	if !ok {
+		return "", fmt.Errorf("%s: unsupported index expression", t.p.Pos(x))
+	}
+	obj, ok := t.p.Info.Uses[id].(*types.Var)
+	if !ok || obj.Pkg() != t.p.Types || obj.Parent() != t.p.Types.Scope() {
+		return "", fmt.Errorf("%s: index of something that is not a package-level table", t.p.Pos(x))
+	}
+	var lit *ast.CompositeLit
+	for _, f := range t.p.Files {
+		for _, d := range f.Decls {
+			gd, ok := d.(*ast.GenDecl)
+			if !ok {
+				continue
+			}
+			for _, sp := range gd.Specs {
+				vs, ok := sp.(*ast.ValueSpec)
+				if !ok {
+					continue
+				}
+				for i, n := range vs.Names {
+					if t.p.Info.Defs[n] == obj && i < len(vs.Values) {
+						lit, _ = vs.Values[i].(*ast.CompositeLit)
+					}
+				}
+			}
+		}
+	}
+	if lit == nil {
+		return "", fmt.Errorf("%s: table %s is not initialised with a literal", t.p.Pos(x), id.Name)
+	}
+	var n int64
+	var elemT types.Type
+	switch tt := obj.Type().Underlying().(type) {
+	case *types.Array:
+		n, elemT = tt.Len(), tt.Elem()
+	case *types.Slice:
+		n, elemT = -1, tt.Elem()
+	default:
+		return "", fmt.Errorf("%s: table %s is neither an array nor a slice", t.p.Pos(x), id.Name)
+	}
+	zero := "0"
+	if isStringType(elemT) {
+		zero = "\"\""
+	} else if !isIntType(elemT) {
+		return "", fmt.Errorf("%s: table %s has an unsupported element type", t.p.Pos(x), id.Name)
+	}
+	idx, err := t.expr(x.Index)
+	if err != nil {
+		return "", err
+	}
+	type ent struct {
+		k int64
+		v string
+	}
+	var ents []ent
+	next := int64(0)
+	for _, el := range lit.Elts {
+		val := el
+		if kv, ok := el.(*ast.KeyValueExpr); ok {
+			tv := t.p.Info.Types[kv.Key]
+			if tv.Value == nil {
+				return "", fmt.Errorf("%s: table key is not a constant", t.p.Pos(kv))
+			}
+			k, exact := constant.Int64Val(constant.ToInt(tv.Value))
+			if !exact {
+				return "", fmt.Errorf("%s: table key out of range", t.p.Pos(kv))
+			}
+			next, val = k, kv.Value
+		}
+		v, err := t.expr(val)
+		if err != nil {
+			return "", err
+		}
+		ents = append(ents, ent{next, v})
+		next++
+	}
+	if n < 0 {
+		for _, e := range ents {
+			if e.k+1 > n {
+				n = e.k + 1
+			}
+		}
+		if n < 0 {
+			n = 0
+		}
+	}
+	pt, err := t.panicTerm(x)
+	if err != nil {
+		return "", err
+	}
+	t.nbind++
+	iv := fmt.Sprintf("IDX%d", t.nbind)
+	body := zero
+	for i := len(ents) - 1; i >= 0; i-- {
+		body = fmt.Sprintf("(if (Z.eqb %s %d) then %s else %s)", iv, ents[i].k, ents[i].v, body)
+	}
+	if t.panRe || t.optRe {
+		return "", fmt.Errorf("%s: table read in a partial function", t.p.Pos(x))
+	}
+	return fmt.Sprintf("(let %s := %s in (if (orb (Z.ltb %s 0) (Z.leb %d %s)) then %s else %s))", iv, idx, iv, n, iv, pt, body), nil
 }
 
 // inlineCall translates a call of a plain (receiver-less) function of the package by INLINING
@@ -788,7 +897,14 @@ func (t *tr2) stmts(l []ast.Stmt) (string, error) {
 		})
 	case *ast.IfStmt:
 		if s.Init != nil {
-			return "", fmt.Errorf("%s: if with an init statement", t.p.Pos(s))
+			// if x := E; C { .. }  ==  x := E; if C { .. }   (x is not used after the if: it is
+			// out of scope there, so the wider scope of the let is harmless)
+			if _, ok := s.Init.(*ast.AssignStmt); !ok {
+				return "", fmt.Errorf("%s: if with an unsupported init statement", t.p.Pos(s))
+			}
+			plain := *s
+			plain.Init = nil
+			return t.stmts(append([]ast.Stmt{s.Init, &plain}, l[1:]...))
 		}
 		return t.withBinds(s, func() (string, error) {
 			c, err := t.expr(s.Cond)
